@@ -423,7 +423,31 @@ async fn exec_a(w: &mut World, ev: &Ev) -> R<Result<(), Violation>> {
                     // (on a copy of the stopped node's directory: connections of the stopped
                     // incarnation may linger in this process and would block the mode switch)
                     let copy = w.dir.join("n0-rollback");
-                    crate::node::snapshot_dir(&w.dirs[0], &copy)?;
+                    // connections of the stopped incarnation may still be closing (the last one
+                    // checkpoints and removes the WAL): copy until the directory held still
+                    let sig = |d: &Path| -> Vec<(String, u64, Option<std::time::SystemTime>)> {
+                        let mut v: Vec<_> = std::fs::read_dir(d)
+                            .map(|rd| {
+                                rd.filter_map(|e| e.ok())
+                                    .filter_map(|e| e.metadata().ok().map(|m| (e.file_name().to_string_lossy().to_string(), m.len(), m.modified().ok())))
+                                    .collect()
+                            })
+                            .unwrap_or_default();
+                        v.sort();
+                        v
+                    };
+                    for attempt in 0..20 {
+                        let before = sig(&w.dirs[0]);
+                        let _ = std::fs::remove_dir_all(&copy);
+                        crate::node::snapshot_dir(&w.dirs[0], &copy)?;
+                        if sig(&w.dirs[0]) == before {
+                            break;
+                        }
+                        if attempt == 19 {
+                            return Err(SimError::Harness("source directory keeps changing after the node was stopped".into()));
+                        }
+                        tokio::time::sleep(std::time::Duration::from_millis(20)).await;
+                    }
                     w.dirs[0] = copy;
                     let conn = Connection::open(w.dirs[0].join("corrosion.db"))?;
                     conn.busy_timeout(std::time::Duration::from_secs(10))?;
